@@ -1298,26 +1298,41 @@ func reconnectHistory(c *kit.Case) {
 		}
 		h.note("reconnect", "PARTITION{missed: %s} then the etcd connection is lost and re-established (state watcher -> cluster.reload)", strings.Join(ds, ", "))
 		g0, w0, _ := h.f.totals()
-		srv.Stop()
-		if !waitState(conn, connectivity.TransientFailure, true) {
-			h.inconclusive("connection did not reach TRANSIENT_FAILURE after the listener was stopped")
+		// The outage is repeated with a longer hold if go-zero's state watcher (a goroutine
+		// that samples the connection state) did not get to see it on a loaded machine.
+		reloaded, why := false, ""
+		for attempt, hold := 0, 300*time.Millisecond; attempt < 3 && !reloaded; attempt, hold = attempt+1, hold*4 {
+			srv.Stop()
+			if !waitState(conn, connectivity.TransientFailure, true) {
+				why = "connection did not reach TRANSIENT_FAILURE after the listener was stopped"
+				break
+			}
+			time.Sleep(hold)
+			lis, err = net.Listen("tcp", addr)
+			if err != nil {
+				why = "cannot re-listen on " + addr + ": " + err.Error()
+				break
+			}
+			srv = grpc.NewServer()
+			go srv.Serve(lis)
+			if !waitState(conn, connectivity.Ready, true) {
+				why = "connection did not become ready again"
+				break
+			}
+			d := 5 * time.Second
+			if attempt == 2 {
+				d = watchdog
+			}
+			reloaded = h.f.waitTotalsFor(g0+1, w0+1, d)
+			why = "watchdog: no reload (Get + Watch) after the connection came back (3 outages)"
+		}
+		if !reloaded {
+			h.inconclusive(why)
 			break
 		}
-		// give go-zero's state watcher goroutine ample time to sample the failure state
-		time.Sleep(300 * time.Millisecond)
-		lis, err = net.Listen("tcp", addr)
-		if err != nil {
-			h.inconclusive("cannot re-listen on " + addr + ": " + err.Error())
-			break
-		}
-		srv = grpc.NewServer()
-		go srv.Serve(lis)
-		if !waitState(conn, connectivity.Ready, true) {
-			h.inconclusive("connection did not become ready again")
-			break
-		}
-		if !h.f.waitTotals(g0+1, w0+1) {
-			h.inconclusive("watchdog: no reload (Get + Watch) after the connection came back")
+		// the reload may still be in progress for a moment: wait for the served watch
+		if !h.f.waitLive(h.subs[0].fk, w0+1) {
+			h.inconclusive("watchdog: reload did not end with a served watch")
 			break
 		}
 		h.reloads++
